@@ -94,6 +94,8 @@ pub struct Case {
     pub nontrivial: bool,
     /// canonical key for distinctness counting
     pub key: String,
+    /// paths of the code this case went through (state-machine cases: read off the implementation's trace)
+    pub features: Vec<String>,
 }
 
 pub struct CaseWriter {
@@ -155,7 +157,9 @@ impl CaseWriter {
         let mut hist = std::collections::BTreeMap::<String, u64>::new();
         let mut distinct = std::collections::HashSet::<&str>::new();
         let mut nontrivial = 0u64;
+        let mut feats = std::collections::BTreeMap::<String, u64>::new();
         for c in &self.cases {
+            for f in &c.features { *feats.entry(f.clone()).or_default() += 1; }
             *hist.entry(c.class.clone()).or_default() += 1;
             if distinct.insert(c.key.as_str()) && c.nontrivial {
                 nontrivial += 1;
@@ -167,6 +171,7 @@ impl CaseWriter {
             "shards": shards,
             "distinct_nontrivial": nontrivial,
             "distribution": hist,
+            "features": feats,
             "cases": self.cases.iter().map(|c| c.json.clone()).collect::<Vec<_>>(),
         });
         std::fs::write(self.dir.join("cases.json"), serde_json::to_vec(&side).unwrap())?;
